@@ -158,6 +158,7 @@ def gen(cls, idx, rng, tier):
             dead_links.add((xy[0], xy[1], l))
     m["dead_links"] = sorted(dead_links)
     names = [v for v, _ in vertices]
+
     if cls in ("constrained",) or rng.random() < .2:
         located = {c[1]: c[2] for c in cons if c[0] == "loc"}
         for v in rng.sample(names, min(len(names), rng.randint(0, 3))):
@@ -172,6 +173,16 @@ def gen(cls, idx, rng, tier):
                 free = [v for v in free if v not in g]
         if rng.random() < .5:
             cons.append(("align", "SDRAM", 4))
+    devs = [c[1] for c in cons if c[0] == "endpoint"]
+    if devs and rng.random() < .4:
+        # a device tied to its driver: the endpoint vertex is also member of
+        # a same-chip group (with a vertex nothing else pins down)
+        pinned = {c[1] for c in cons if c[0] == "loc"} | {
+            v for c in cons if c[0] == "same" for v in c[1]}
+        free_ = [v for v, r_ in vertices if v not in devs and
+                 v not in pinned and r_.get("Cores", 0) <= 2]
+        if free_:
+            cons.append(("same", [rng.choice(devs), rng.choice(free_)]))
     nets = []
     for _ in range(rng.randint(1, 10)):
         fan = rng.choice([1, 1, 2, 3, 5, rng.randint(1, 25)])
